@@ -154,6 +154,11 @@ pub struct ClientModel {
     pub open: Vec<usize>,
     pub started: bool,
     pub unit: u8,
+    /// RTU framing (no transaction ids: any CRC-valid frame answers the outstanding request)
+    pub rtu: bool,
+    /// only one session of the request loop is modelled (no connection life-cycle): the session
+    /// starts connected, a lost session ends the task
+    pub session_only: bool,
 }
 
 pub fn request_for(id: usize) -> Req {
@@ -206,11 +211,30 @@ impl ClientModel {
             open: vec![],
             started: false,
             unit: 1,
+            rtu: false,
+            session_only: false,
         }
     }
 
     pub fn done(&self) -> bool {
         self.phase == Phase::Done
+    }
+
+    /// the request loop alone (what `verif::client_session` runs), optionally with RTU framing
+    pub fn new_session(cap: usize, max_timeouts: Option<usize>, rtu: bool) -> Self {
+        let mut m = Self::new(cap, max_timeouts, 1, 1, 1);
+        m.rtu = rtu;
+        m.session_only = true;
+        m.phase = Phase::Idle;
+        m
+    }
+
+    fn frame(&self, tx: u16, unit: u8, pdu: &[u8]) -> Vec<u8> {
+        if self.rtu {
+            rtu_frame(unit, pdu)
+        } else {
+            mbap_frame(tx, unit, pdu)
+        }
     }
 
     fn closed(&self) -> bool {
@@ -232,6 +256,9 @@ impl ClientModel {
     /// the first announcement when the task is first polled
     pub fn start(&mut self) -> Expected {
         self.started = true;
+        if self.session_only {
+            return Expected::default();
+        }
         Expected { states: vec![MState::Disabled], ..Default::default() }
     }
 
@@ -326,7 +353,7 @@ impl ClientModel {
             e.transport_dropped = true;
         }
         self.phase = Phase::Done;
-        if announce {
+        if announce && !self.session_only {
             e.states.push(MState::Shutdown);
         }
         e.task_done = true;
@@ -345,6 +372,12 @@ impl ClientModel {
     }
 
     fn session_lost(&mut self, e: &mut Expected) {
+        if self.session_only {
+            // the request loop returns; whatever is still queued dies with it
+            self.phase = Phase::Idle;
+            self.finish(e, false);
+            return;
+        }
         e.transport_dropped = true;
         self.rxbuf.clear();
         self.partial_rest = None;
@@ -387,10 +420,20 @@ impl ClientModel {
                 MCmd::Enable => {
                     if !self.enabled {
                         self.enabled = true;
-                        if self.phase == Phase::Disabled {
+                        if self.phase == Phase::Disabled && !self.session_only {
                             self.start_connecting(e);
                         }
                     }
+                }
+                MCmd::Disable if self.session_only => {
+                    // the loop ends with "disabled" whenever a setting leaves it disabled
+                    self.enabled = false;
+                    self.finish(e, false);
+                    return;
+                }
+                MCmd::SetDecode if self.session_only && !self.enabled => {
+                    self.finish(e, false);
+                    return;
                 }
                 MCmd::Disable => {
                     if self.enabled {
@@ -417,7 +460,7 @@ impl ClientModel {
                             self.complete(e, r.id, OutClass::Io("BrokenPipe".into()));
                             self.session_lost(e);
                         } else {
-                            e.wire.push(mbap_frame(tx, r.unit, &encode_request(&r.req)));
+                            e.wire.push(self.frame(tx, r.unit, &encode_request(&r.req)));
                             let deadline = self.now + r.timeout_ms;
                             self.phase = Phase::InFlight { req: r, tx, deadline };
                         }
@@ -463,7 +506,7 @@ impl ClientModel {
     /// frames extracted from the connection's byte stream
     fn receive(&mut self, e: &mut Expected, bytes: &[u8]) {
         self.rxbuf.extend_from_slice(bytes);
-        let (frames, end) = parse_mbap_stream(&self.rxbuf);
+        let (frames, end) = if self.rtu { parse_rtu_stream(RtuRole::Response, &self.rxbuf) } else { parse_mbap_stream(&self.rxbuf) };
         let consumed = match end {
             StreamEnd::NeedMore(rest) => self.rxbuf.len() - rest,
             StreamEnd::Error(_) => self.rxbuf.len(),
@@ -472,7 +515,7 @@ impl ClientModel {
         self.rxbuf.drain(..consumed);
         for f in frames {
             if let Phase::InFlight { req, tx, .. } = self.phase.clone() {
-                if f.tx == Some(tx) {
+                if self.rtu || f.tx == Some(tx) {
                     let out = match decode_reply(&req.req, &f.pdu) {
                         ReplyDecode::Ok(v) | ReplyDecode::OkLenient(v) => OutClass::Ok(v),
                         ReplyDecode::Exception(c) => OutClass::Exception(c),
@@ -516,11 +559,24 @@ impl ClientModel {
         };
         let good = encode_reply(&req, &reply_values(&req));
         match ev {
-            Ev::ReplyOk => Some(mbap_frame(tx, self.unit, &good)),
-            Ev::ReplyException => Some(mbap_frame(tx, self.unit, &[req.fc() | 0x80, 4])),
-            Ev::ReplyBad => Some(mbap_frame(tx, self.unit, &good[..good.len() - 1])),
-            Ev::ReplyPartial(n) => Some(mbap_frame(tx, self.unit, &good)[..*n].to_vec()),
-            Ev::ReplyStale(back) => Some(mbap_frame(tx.wrapping_sub(*back), self.unit, &good)),
+            Ev::ReplyOk => Some(self.frame(tx, self.unit, &good)),
+            Ev::ReplyException => Some(self.frame(tx, self.unit, &[req.fc() | 0x80, 4])),
+            // RTU: a well-framed reply for another function (the length of an RTU frame is derived
+            // from its function code, so a truncated PDU cannot be framed)
+            Ev::ReplyBad if self.rtu => Some(self.frame(tx, self.unit, &[6, 0, 1, 0, 2])),
+            Ev::ReplyBad => Some(self.frame(tx, self.unit, &good[..good.len() - 1])),
+            Ev::ReplyPartial(n) => {
+                let f = self.frame(tx, self.unit, &good);
+                Some(f[..(*n).min(f.len() - 1)].to_vec())
+            }
+            Ev::ReplyStale(back) => Some(self.frame(tx.wrapping_sub(*back), self.unit, &good)),
+            // RTU: a frame whose CRC does not verify
+            Ev::BadHeader if self.rtu => {
+                let mut f = self.frame(tx, self.unit, &good);
+                let n = f.len();
+                f[n - 1] ^= 0x40;
+                Some(f)
+            }
             Ev::BadHeader => Some(mbap_raw(tx, 1, (good.len() + 1) as u16, self.unit, &good)),
             _ => None,
         }
@@ -591,7 +647,7 @@ impl ClientModel {
                 let bytes = self.delivery(ev).unwrap();
                 if let Ev::ReplyPartial(n) = ev {
                     let full = self.delivery(&Ev::ReplyOk).unwrap();
-                    self.partial_rest = Some(full[*n..].to_vec());
+                    self.partial_rest = Some(full[(*n).min(full.len() - 1)..].to_vec());
                 }
                 self.receive(&mut e, &bytes);
                 if self.rxbuf.is_empty() {
